@@ -109,10 +109,12 @@ static unsigned int reply_len(int ph) { return line_len(ph) * (1u + sc_cont[ph])
 
 static unsigned char reply_byte(int ph, unsigned int k)
 {
-  int first = 1;
-  if (sc_cont[ph] && k >= line_len(ph)) { k -= line_len(ph); first = 0; }
+  /* sc_cont[ph] continuation lines "ddd-t LF" (0, 1 or 2 of them) before the final "ddd t LF" */
+  unsigned int line = 0;
+  if (k >= line_len(ph)) { k -= line_len(ph); line = 1; }
+  if (k >= line_len(ph)) { k -= line_len(ph); line = 2; }
   if (k < 3) return (unsigned char) ('0' + sc_code[ph][k]);
-  if (k == 3) return (sc_cont[ph] && first) ? '-' : ' ';
+  if (k == 3) return (line < sc_cont[ph]) ? '-' : ' ';
   if (k == 4) return sc_text[ph];
   return '\n';
 }
@@ -325,7 +327,7 @@ void vmain(void)
   sym_inputs();
   for (i = 0; i < NPH; ++i) {
     ASSUME(sc_code[i][0] <= 9 && sc_code[i][1] <= 9 && sc_code[i][2] <= 9);
-    ASSUME(sc_cont[i] <= 1 && sc_text[i] != '\n');
+    ASSUME(sc_cont[i] <= 2 && sc_text[i] != '\n');
   }
   ASSUME(sc_endkind == 0 || sc_endkind == -1);
   ASSUME(sc_blastfail <= 2 && sc_wfail <= PH_DATA);
